@@ -89,11 +89,11 @@ fn on_enum(inp: &mut syn::DeriveInput) -> syn::Result<proc_macro2::TokenStream> 
         let row = match &var.fields {
             syn::Fields::Unit => if index_only {
                 quote! {
-                    #name::#con => { #idx.cbor_len(__ctx777) }
+                    #name::#con => { <u32 as minicbor::CborLen<Ctx>>::cbor_len(&#idx, __ctx777) }
                 }
             } else {
                 quote! {
-                    #name::#con => { 1 + #idx.cbor_len(__ctx777) + #tag + 1 }
+                    #name::#con => { 1 + <u32 as minicbor::CborLen<Ctx>>::cbor_len(&#idx, __ctx777) + #tag + 1 }
                 }
             }
             syn::Fields::Named(f) if index_only => {
@@ -103,7 +103,7 @@ fn on_enum(inp: &mut syn::DeriveInput) -> syn::Result<proc_macro2::TokenStream> 
                 let steps = on_fields(&fields, false, encoding)?;
                 let idents = fields.fields().idents();
                 quote! {
-                    #name::#con{#(#idents,)* ..} => { #(#steps)* + #tag + 1 + #idx.cbor_len(__ctx777) }
+                    #name::#con{#(#idents,)* ..} => { #(#steps)* + #tag + 1 + <u32 as minicbor::CborLen<Ctx>>::cbor_len(&#idx, __ctx777) }
                 }
             }
             syn::Fields::Unnamed(f) if index_only => {
@@ -113,7 +113,7 @@ fn on_enum(inp: &mut syn::DeriveInput) -> syn::Result<proc_macro2::TokenStream> 
                 let steps  = on_fields(&fields, false, encoding)?;
                 let idents = fields.match_idents();
                 quote! {
-                    #name::#con(#(#idents,)*) => { #(#steps)* + #tag + 1 + #idx.cbor_len(__ctx777) }
+                    #name::#con(#(#idents,)*) => { #(#steps)* + #tag + 1 + <u32 as minicbor::CborLen<Ctx>>::cbor_len(&#idx, __ctx777) }
                 }
             }
         };
@@ -178,7 +178,7 @@ fn on_fields(fields: &Fields, has_self: bool, encoding: Encoding) -> syn::Result
                         steps.push(quote! {
                             if !#is_nil(&self.#ident) {
                                 __num777 += 1;
-                                __len777 += #idx.cbor_len(__ctx777) + #tag + #cbor_len(&self.#ident, __ctx777)
+                                __len777 += <u32 as minicbor::CborLen<Ctx>>::cbor_len(&#idx, __ctx777) + #tag + #cbor_len(&self.#ident, __ctx777)
                             }
                         })
                     } else {
@@ -186,7 +186,7 @@ fn on_fields(fields: &Fields, has_self: bool, encoding: Encoding) -> syn::Result
                         steps.push(quote! {
                             if !#is_nil(&self.#i) {
                                 __num777 += 1;
-                                __len777 += #idx.cbor_len(__ctx777) + #tag + #cbor_len(&self.#i, __ctx777)
+                                __len777 += <u32 as minicbor::CborLen<Ctx>>::cbor_len(&#idx, __ctx777) + #tag + #cbor_len(&self.#i, __ctx777)
                             }
                         })
                     }
@@ -194,7 +194,7 @@ fn on_fields(fields: &Fields, has_self: bool, encoding: Encoding) -> syn::Result
                     steps.push(quote! {
                         if !#is_nil(&#ident) {
                             __num777 += 1;
-                            __len777 += #idx.cbor_len(__ctx777) + #tag + #cbor_len(&#ident, __ctx777)
+                            __len777 += <u32 as minicbor::CborLen<Ctx>>::cbor_len(&#idx, __ctx777) + #tag + #cbor_len(&#ident, __ctx777)
                         }
                     })
                 }
